@@ -581,7 +581,7 @@ def run_case(ctx, i):
         c['rejected_operand_checks'] += 1
         if fresh or pre_spec is None:
           # built by the step, or schema-less before it: nobody made it partial
-          probs = SM.schema_ok_nodes([x], None, tol)
+          probs = SM.schema_ok_nodes([x], None, tol, use_flags=fresh)
         else:
           # a live node passed as operand (the library validates it in place and
           # stores a copy unless it is a root): judged where it lives
@@ -623,7 +623,8 @@ def run_case(ctx, i):
       n_ok += 1
       c['steps_ok'] += 1
       if o.effect == 'new' and any(result is r for r in forest) and (
-          step['at'][0] in taint or 'partial' in step['scopes']):
+          step['at'][0] in taint or 'partial' in step['scopes'] or step.get('src_partial')):
+        # derived from a value that was explicitly made partial
         taint.add(next(j for j, r in enumerate(forest) if r is result))
     c['schema_ok_evals'] += 1
     for clause, detail in SM.schema_ok_nodes(view, c, tolerate):
@@ -655,6 +656,10 @@ def run_case(ctx, i):
       break
     record = []
     single = not O.OPS[step['op']].batch and O.OPS[step['op']].effect == 'mutate'
+    if O.OPS[step['op']].effect == 'new':
+      src = D.resolve(forest, step['at'][0], step['at'][1])
+      step['src_partial'] = bool(SM.effective_partial(src) or
+                                 tolerate(step['at'][0], list(step['at'][1]), src))
     before = snapshot(forest) if single else None
     ctx.label = step['op']
     status, result = execute(forest, step, record=record)
